@@ -4,8 +4,8 @@
 * `singleDecl` — `single_variable_declaration(routine, variables, group_by_shape)` (loki/transformations/utilities.py) on a list
   of declaration statements, each a list of declared symbols (name + shape key) sharing the statement's attributes.
 * `elimImports` — `eliminate_unused_imports` / `sanitise_imports` on a list of USE statements and the set of (lower-cased) names
-  the scope uses.  The model follows the code as it is: a USE statement without ONLY list has the empty symbol tuple `()`, which
-  is `not None`, so it is *dropped* as soon as any imported symbol anywhere in the scope is redundant (see Findings/C41).
+  the scope uses.  A USE statement without ONLY list (`symbols == ()`) is left alone (`if im.symbols:`; until the fix commit
+  for class `sanitise-imports-drops-bare-use` it was dropped as soon as any imported symbol of the scope was redundant).
 
 Core Lean only.
 -/
@@ -87,7 +87,9 @@ def importedSyms : List Imp → List String
 def elimOne (used : List String) (im : Imp) : Option Imp :=
   match im.syms with
   | none => some im
-  | some ss =>
+  | some [] => some im               -- `if im.symbols:` — a USE without ONLY list has nothing to sanitise
+  | some (s :: ss0) =>
+      let ss := s :: ss0
       let ss' := ss.filter (isUsed used)
       if ss'.isEmpty then none
       else if ss'.length < ss.length then some { im with syms := some ss' }
